@@ -20,15 +20,24 @@
     cannot store into the command region, C03) nor emits a byte of the command machine;
   * `C11_service_unit`: hence over a whole `cat_service` body, accepted bytes ++ remainder is
     invariant while the command machine is sending a unit.
-  Not proved in Lean: the same accounting for the unsolicited machine's units (its closing line
-  break follows `cr_flag`, which the command machine may change meanwhile), and that every text is
-  terminated inside the region when its unit starts (`FlushInv` is a hypothesis at the start; it
-  is established here for result codes and by `C06_print_terminates` for printed text) — the
-  unit oracle of the correspondence check covers those on the implementation.
+  * `C11_command_units` (`Proofs/UnitsHist.lean`): **over any history from `cat_init`** everything the
+    command machine has had accepted by `io->write`, followed by what remains of the unit in
+    progress, is a concatenation of whole units — line break ++ text without NUL ++ line break, or
+    the bare text of a command-list line; `C11_command_units_whole`: whenever the command machine is
+    not in the middle of a unit, its accepted output is exactly a concatenation of whole units.
+    Nothing lost, duplicated or truncated, no foreign byte in between (bytes of the unsolicited
+    machine are a different event class: `C11_writer`).  The hypothesis `FlushInv` of the step
+    theorems is discharged at every unit start by the text-termination invariants of the
+    out-of-bounds proof (`OobF`, C03), so the descriptor hypotheses are those of
+    `C03_no_out_of_bounds`.
+  Not proved in Lean: the same trace-level accounting for the unsolicited machine's units (its
+  closing line break follows `cr_flag`, which the command machine may change while the unit is
+  being sent) — the unit oracle of the correspondence check covers it on the implementation.
 -/
 import CatVerif.Proofs.Inv
 import CatVerif.Proofs.Log
 import CatVerif.Proofs.Units
+import CatVerif.Proofs.UnitsHist
 namespace Cat
 open St
 
@@ -129,5 +138,52 @@ example : ∃ (D : Desc) (s : St), s.state = .flushWrite ∧ FlushInv D s ∧ re
   refine ⟨{ (default : Desc) with bufSize := 8, unsBuf := some 0 },
     { (default : St) with state := .flushWrite, writeState := 1, writeSrc := .main, position := 1, crFlag := true,
                           buf := [79, 75, 0, 0, 0, 0, 0, 0] }, rfl, ⟨by decide, by decide, Or.inr (Or.inl ⟨rfl, rfl⟩)⟩, by decide⟩
+
+/-- the state `cat_init` leaves behind satisfies the invariants of the unit accounting -/
+theorem C11_init_good (D : Desc) (buf ubuf : List Byte) (mem : List (List Byte))
+    (hn : 0 < D.commandsNum) (hc : 0 < D.cap) (hd : DescOk D) (hb : D.cmdCap ≤ buf.length)
+    (hm : ∀ id, ∀ v ∈ (D.cmdD id).vars.getD [], v.dataSize ≤ (mem.getD v.slot []).length) :
+    GoodU ⟨D, init D buf ubuf mem⟩ := by
+  refine ⟨⟨hn, ⟨hd, ?_, init_ringInv D buf ubuf mem hc, ?_⟩,
+    ⟨⟨by simp [init], by simp [init], by simp [NeedsCmd, init], by simp [init], by simp [init]⟩,
+     ⟨by simp [NeedsUCmd, init], by simp [init], by simp [init]⟩⟩, ⟨.other ?_, .other ?_ ?_, .other ?_⟩⟩, ?_⟩
+  · intro id v hv; simpa [init, St.slotGet] using hm id v hv
+  · simpa [BufOk, init] using hb
+  · simp [init, St.ph, CState.ph]
+  · simp [init]
+  · simp [init]
+  · simp [init, St.ph, UState.ph]
+  · intro h; simp [init] at h
+
+/-- **The command machine's output is a sequence of whole units**, over any history. -/
+theorem C11_command_units (D : Desc) (buf ubuf : List Byte) (mem : List (List Byte)) (ops : List Op)
+    (hok : ∀ op ∈ ops, OpOk op) (hn : 0 < D.commandsNum) (hc : 0 < D.cap) (hd : DescOk D) (hb : D.cmdCap ≤ buf.length)
+    (hm : ∀ id, ∀ v ∈ (D.cmdD id).vars.getD [], v.dataSize ≤ (mem.getD v.slot []).length) :
+    let r := runOps ⟨D, init D buf ubuf mem⟩ ops
+    ∃ us : List (List Byte), (∀ u ∈ us, UnitShape u) ∧ outAllC r.2 ++ remC r.1.D r.1.s = us.flatten := by
+  obtain ⟨us, h1, h2⟩ := runOps_units ops ⟨D, init D buf ubuf mem⟩ hok (C11_init_good D buf ubuf mem hn hc hd hb hm)
+  refine ⟨us, h1, ?_⟩
+  have : remC D (init D buf ubuf mem) = [] := by simp [remC, init]
+  rw [h2, this]; simp
+
+/-- whenever the command machine is not sending a unit, what it has emitted so far is exactly a
+concatenation of whole units -/
+theorem C11_command_units_whole (D : Desc) (buf ubuf : List Byte) (mem : List (List Byte)) (ops : List Op)
+    (hok : ∀ op ∈ ops, OpOk op) (hn : 0 < D.commandsNum) (hc : 0 < D.cap) (hd : DescOk D) (hb : D.cmdCap ≤ buf.length)
+    (hm : ∀ id, ∀ v ∈ (D.cmdD id).vars.getD [], v.dataSize ≤ (mem.getD v.slot []).length)
+    (hq : ¬ ((runOps ⟨D, init D buf ubuf mem⟩ ops).1.s.state = .flushWait ∨ (runOps ⟨D, init D buf ubuf mem⟩ ops).1.s.state = .flushWrite)) :
+    ∃ us : List (List Byte), (∀ u ∈ us, UnitShape u) ∧ outAllC (runOps ⟨D, init D buf ubuf mem⟩ ops).2 = us.flatten := by
+  obtain ⟨us, h1, h2⟩ := C11_command_units D buf ubuf mem ops hok hn hc hd hb hm
+  refine ⟨us, h1, ?_⟩
+  have e : remC (runOps ⟨D, init D buf ubuf mem⟩ ops).1.D (runOps ⟨D, init D buf ubuf mem⟩ ops).1.s = [] := remC_idle _ _ hq
+  have h3 : outAllC (runOps ⟨D, init D buf ubuf mem⟩ ops).2 ++ remC (runOps ⟨D, init D buf ubuf mem⟩ ops).1.D (runOps ⟨D, init D buf ubuf mem⟩ ops).1.s = us.flatten := h2
+  rw [e] at h3
+  simpa using h3
+
+/-- non-vacuity: shapes of real units -/
+example : UnitShape [13, 10, 79, 75, 13, 10] ∧ UnitShape [10, 43, 88, 61, 53, 10] ∧ UnitShape [10, 65, 84, 43, 88, 10] :=
+  ⟨⟨[13, 10], [13, 10], [79, 75], Or.inr rfl, Or.inr rfl, by decide, Or.inl rfl⟩,
+   ⟨[10], [10], [43, 88, 61, 53], Or.inl rfl, Or.inl rfl, by decide, Or.inl rfl⟩,
+   ⟨[10], [10], [10, 65, 84, 43, 88, 10], Or.inl rfl, Or.inl rfl, by decide, Or.inr rfl⟩⟩
 
 end Cat
